@@ -11,11 +11,12 @@ import (
 
 func (e *Engine) newUnit(fn *ssa.Function, name string) *Unit {
 	return &Unit{eng: e, u: e.u, fn: fn, name: name, heapSort: map[string]Sort{}, ord: map[string]int{}, notes: map[string]bool{},
-		declared: map[string]bool{}, heapType: map[string]types.Type{}, epochJoin: map[int][]epochArm{}, defMemo: map[string]string{}, ifacePay: map[string]Term{}}
+		declared: map[string]bool{}, heapType: map[string]types.Type{}, epochJoin: map[int][]epochArm{}, reveals: map[string]bool{}, revealed: map[string]bool{}, defMemo: map[string]string{}, ifacePay: map[string]Term{}}
 }
 
-func unitName(fn *ssa.Function) string {
-	s := fn.String()
+func unitName(fn *ssa.Function) string { return unitNameS(fn.String()) }
+
+func unitNameS(s string) string {
 	s = strings.ReplaceAll(s, repoModule+"/", "")
 	s = strings.ReplaceAll(s, "github.com/vx-labs/", "")
 	return s
@@ -23,7 +24,26 @@ func unitName(fn *ssa.Function) string {
 
 // VerifyFunction builds the verification unit of fn against its contract (may be nil: safety only).
 func (e *Engine) VerifyFunction(fn *ssa.Function) (un *Unit, err error) {
+	return e.verifyFunction(fn, nil)
+}
+
+// VerifyImplements verifies fn against the contract of the interface method it implements.
+func (e *Engine) VerifyImplements(impl *Contract) (*Unit, error) {
+	fn := e.allFns[impl.Name]
+	if fn == nil {
+		return nil, fmt.Errorf("implements: no function %s", impl.Name)
+	}
+	return e.verifyFunction(fn, impl)
+}
+
+func (e *Engine) verifyFunction(fn *ssa.Function, impl *Contract) (un *Unit, err error) {
 	un = e.newUnit(fn, unitName(fn))
+	if impl != nil {
+		un.name = unitNameS(impl.Name) + " as " + unitNameS(impl.As)
+		for _, r := range impl.Reveals {
+			un.reveals[r] = true
+		}
+	}
 	defer func() {
 		if r := recover(); r != nil {
 			if u, ok := r.(unsupported); ok {
@@ -34,6 +54,16 @@ func (e *Engine) VerifyFunction(fn *ssa.Function) (un *Unit, err error) {
 		}
 	}()
 	ct := e.contractFor(fn)
+	if impl != nil {
+		ct = e.contracts[impl.As]
+		if ct == nil {
+			return nil, fmt.Errorf("implements: no contract for %s", impl.As)
+		}
+	} else if ct != nil {
+		for _, r := range ct.Reveals {
+			un.reveals[r] = true
+		}
+	}
 	f := &Frame{un: un, fn: fn, vals: map[ssa.Value]Val{}, contract: ct}
 	st := State{R: tTrue, H: map[string]Term{}}
 	next0 := un.heapInit("$next", SInt)
@@ -56,6 +86,24 @@ func (e *Engine) VerifyFunction(fn *ssa.Function) (un *Unit, err error) {
 			un.assume(&st, un.typeFacts(pt.Elem(), cur, &st, 0))
 		}
 	}
+	if impl != nil {
+		// the interface contract names the receiver as an interface value and the other parameters by position
+		if len(ct.Params) != len(fn.Params) {
+			return nil, fmt.Errorf("implements: %s has %d parameters, contract of %s names %d", fn.Name(), len(fn.Params), impl.As, len(ct.Params))
+		}
+		env = map[string]Val{}
+		for i, p := range fn.Params {
+			v := f.vals[p]
+			if i == 0 {
+				it := un.define("self", IfaceMk(un.u.TypeTag(p.Type()), un.u.Box(v.T)))
+				un.ifacePay[it.S] = v.T
+				recvT := e.lookupIfaceRecv(impl.As)
+				v = Val{T: it, Go: recvT, Dyn: p.Type()}
+			}
+			env[ct.Params[i].Name] = v
+		}
+	}
+	f.emitAxioms()
 	f.paramEnv = env
 	un.lockDefault = ct == nil || !mentionsLocks(ct)
 	f.entry = st
@@ -215,4 +263,91 @@ func mentionsLocks(ct *Contract) bool {
 		}
 	}
 	return false
+}
+
+// lookupIfaceRecv returns the interface type named in "(pkg.Iface).Method".
+func (e *Engine) lookupIfaceRecv(key string) types.Type {
+	j := strings.Index(key, ").")
+	if !strings.HasPrefix(key, "(") || j < 0 {
+		return nil
+	}
+	recv := key[1:j]
+	i := strings.LastIndex(recv, ".")
+	if i < 0 {
+		return nil
+	}
+	if p := e.typesPkgs()[recv[:i]]; p != nil {
+		if o, ok := p.Scope().Lookup(recv[i+1:]).(*types.TypeName); ok {
+			return o.Type()
+		}
+	}
+	return nil
+}
+
+// verifyUnit: a unit name is a function name, or "FUNC as (Iface).Method" for an implements directive.
+func (e *Engine) verifyUnit(name string) (*Unit, error) {
+	if i := strings.Index(name, " as "); i >= 0 {
+		f1 := e.findFunction(strings.TrimSpace(name[:i]))
+		right := strings.TrimSpace(name[i+4:])
+		// "(pkg.I).M" or "(I).M": compare the simple interface name and the method
+		simple := strings.TrimPrefix(right, "(")
+		if j := strings.LastIndex(simple[:strings.Index(simple+")", ")")], "."); j >= 0 {
+			simple = simple[j+1:]
+		}
+		for _, impl := range e.impls {
+			if f1 != nil && impl.Name == f1.String() && (strings.HasSuffix(impl.As, "."+simple) || strings.HasSuffix(impl.As, "("+simple)) {
+				return e.VerifyImplements(impl)
+			}
+		}
+		return nil, fmt.Errorf("no implements directive for %q", name)
+	}
+	fn := e.findFunction(name)
+	if fn == nil {
+		return nil, fmt.Errorf("function %s does not exist", name)
+	}
+	return e.VerifyFunction(fn)
+}
+
+// emitAxioms adds the `axiom` declarations of the spec and contract files, quantified over every heap they read.
+func (f *Frame) emitAxioms() {
+	un := f.un
+	for _, ax := range un.eng.axioms {
+		func() {
+			defer func() {
+				if r := recover(); r != nil {
+					if u, ok := r.(unsupported); ok {
+						panic(unsupported{"axiom " + ax.Name + ": " + u.msg})
+					}
+					panic(r)
+				}
+			}()
+			un.axHeaps = map[string]Term{}
+			un.inQuant++
+			st := &State{R: tTrue, H: map[string]Term{}}
+			fr := &Frame{un: un, fn: f.fn, vals: map[ssa.Value]Val{}, pkgPath: ax.Pkg}
+			body := fr.eval(ax.Body, &evalCtx{env: map[string]Val{}, cur: st, old: st})
+			un.inQuant--
+			var hv []Term
+			for _, k := range sortedKeys(un.axHeaps) {
+				hv = append(hv, un.axHeaps[k])
+			}
+			un.axHeaps = nil
+			t := body.T
+			if len(hv) > 0 {
+				// merge with the body's own quantifier when it is one, so that its patterns stay usable
+				if strings.HasPrefix(t.S, "(forall (") {
+					var b strings.Builder
+					b.WriteString("(forall (")
+					for _, h := range hv {
+						fmt.Fprintf(&b, "(%s %s)", h.S, h.Sort)
+					}
+					b.WriteString(t.S[len("(forall ("):])
+					t = Term{b.String(), SBool}
+				} else {
+					t = Forall(hv, t)
+				}
+			}
+			un.decls = append(un.decls, "(assert "+t.S+")")
+		}()
+	}
 }
